@@ -277,8 +277,8 @@ def checks(tier):
     T = 16
     sh = {"quick": 4, "thorough": 16}
     return [
-        Check("debounce", _run_debounce, strategy=_rel_cases([0, 1, 2, 2, 3, 5], alias=True), examples={"quick": 2400, "thorough": T * 20000}, shards=sh),
-        Check("throttle_first", _run_tf, strategy=_rel_cases([1, 2, 2, 3, 5]), examples={"quick": 1600, "thorough": T * 10000}, shards=sh),
-        Check("throttle_with_mapper", _run_twm, strategy=_twm_cases(), examples={"quick": 2000, "thorough": T * 16000}, shards=sh),
-        Check("sample", _run_sample, strategy=_sample_cases(), examples={"quick": 2400, "thorough": T * 20000}, shards=sh),
+        Check("debounce", _run_debounce, strategy=_rel_cases([0, 1, 2, 2, 3, 5], alias=True), examples={"quick": 2400, "thorough": T * 12000}, shards=sh),
+        Check("throttle_first", _run_tf, strategy=_rel_cases([1, 2, 2, 3, 5]), examples={"quick": 1600, "thorough": T * 8000}, shards=sh),
+        Check("throttle_with_mapper", _run_twm, strategy=_twm_cases(), examples={"quick": 2000, "thorough": T * 8000}, shards=sh),
+        Check("sample", _run_sample, strategy=_sample_cases(), examples={"quick": 2400, "thorough": T * 12000}, shards=sh),
     ]
